@@ -58,7 +58,7 @@ def curve_text(em, c):
 def inputs(npts, basis, given, units='kg/(m2*h*kPa)'):
     xs, xt, js, jt, ps, pt = [], [], [], [], [], []
     for i in range(npts):
-        c, t = comp('cx%d' % i, 0.2 + 0.3 * i, basis)
+        c, t = comp('cx%d' % i, 0.2 + 0.3 * i, basis if basis != 'mixed' else ('weight', 'molar')[i % 2])   # 'mixed': every point its own basis
         xs.append(c); xt.append(t)
         js.append((V('cj%d_1' % i, 0.6 + 0.1 * i), V('cj%d_2' % i, 0.02)))
         jt.append('(cj%d_1, cj%d_2)' % (i, i))
@@ -87,6 +87,9 @@ def cases():
                         continue
                     cfgs.append((given, mode, basis, npts, 'kg/(m2*h*kPa)'))
     cfgs.append(('P', 'vac', 'weight', 2, 'SI'))
+    cfgs.append(('J', 'temp', 'mixed', 2, 'kg/(m2*h*kPa)'))
+    cfgs.append(('J', 'press', 'mixed', 2, 'kg/(m2*h*kPa)'))
+    cfgs.append(('P', 'vac', 'mixed', 2, 'kg/(m2*h*kPa)'))
     cfgs.append(('both', 'press', 'weight', 1, 'GPU'))
     for given, mode, basis, npts, units in cfgs:
         def run(given=given, mode=mode, basis=basis, npts=npts, units=units):
@@ -99,12 +102,12 @@ def cases():
         _, mt = sym_mixture()
         _, xt, _, Jt, _, Pt = inputs(npts, basis, given, units)
         tpt, ppt = mode_text(mode)
-        cs.append(Case('curve_%s_%s_%s_%d_%s' % (given, mode, basis[0], npts, units_text(units).strip('()').replace(' ', '')),
+        cs.append(Case('curve_%s_%s_%s_%d_%s' % (given, mode, 'x' if basis == 'mixed' else basis[0], npts, units_text(units).strip('()').replace(' ', '')),
                        'mk_curve N %s %s (Build_CurveIn N T %s %s %s %s %s)' % (PP_MODEL, mt, xt, Jt, tpt, ppt, Pt),
                        run, curve_text, binders=BIND, tactic='bridge_solver'))
     # metrics on a constructed curve (both given; no partial pressures involved)
     for metric in ('permeate_composition', 'get_separation_factor', 'get_psi', 'get_selectivity'):
-        for basis in ('weight', 'molar'):
+        for basis in ('weight', 'molar', 'mixed'):
             def run(metric=metric, basis=basis):
                 m, _ = sym_mixture()
                 xs, _, J, _, P, _ = inputs(2, basis, 'both')
@@ -120,7 +123,7 @@ def cases():
                   'get_selectivity': 'curve_selectivity N %s %s' % (mt, cv)}[metric]
             res = (lambda em, r: '[%s]' % '; '.join(comp_text(em, x) for x in r)) if metric == 'permeate_composition' \
                 else (lambda em, r: '[%s]' % '; '.join(em.ref(x) for x in r))
-            cs.append(Case('metric_%s_%s' % (metric, basis[0]), fn, run, res, tactic='bridge_solver'))
+            cs.append(Case('metric_%s_%s' % (metric, 'x' if basis == 'mixed' else basis[0]), fn, run, res, tactic='bridge_solver'))
     # ideal_diffusion_curve with the solver abstract
     for mode in ('vac', 'temp', 'press', 'both'):
         for ct in ('NRTL', 'UNIQUAC'):
